@@ -17,13 +17,13 @@ Record case := mkCase {
 Fixpoint run_b (fee ef : Z) (p : bpool) (ops : list op) : list Z :=
   match ops with
   | [] => []
-  | o :: r => let '(code, vals, p') := b_step fee ef p o in
+  | o :: r => let '(code, vals, p') := if op_amounts_fit o then b_step fee ef p o else (e_overflow, repeat 0 (nres (b_n p) o), p) in
               (code :: vals) ++ b_res p' ++ [b_shares p'] ++ run_b fee ef p' r
   end.
 Fixpoint run_s (fee ef : Z) (p : spool) (ops : list op) : list Z :=
   match ops with
   | [] => []
-  | o :: r => let '(code, vals, p') := s_step fee ef p o in
+  | o :: r => let '(code, vals, p') := if op_amounts_fit o then s_step fee ef p o else (e_overflow, repeat 0 (nres (s_n p) o), p) in
               (code :: vals) ++ s_res p' ++ [s_shares p'] ++ run_s fee ef p' r
   end.
 
